@@ -630,3 +630,86 @@ def template_cover(ctx):
            "the text after the last placeholder is not appended before the expanded string is "
            "looked up: templates that differ only in their suffix share a feature id, and "
            "model.def lines with that suffix no longer match")
+
+
+def sortcmp(ctx):
+    """SORTCMP (C13): the statistics are listed by non-increasing frequency with ties by ascending
+    id. Both comparators handed to sort in ConnIdCounter::compute_probs must compare the
+    *second* element's probability with the *first* one's (descending) and break ties by
+    comparing the first element's id with the second one's (ascending)."""
+    crate = ctx.facts("A").lib
+    E = Effects(crate)
+    p = "vibrato::dictionary::mapper::ConnIdCounter::compute_probs"
+    fa = E.fa(p)
+    sorts = [(b, t) for b, t in fa.calls()
+             if {strip_generics(x).rsplit("::", 1)[-1] for x in callee_paths(t)} &
+             {"sort_by", "sort_unstable_by", "sort_by_key", "sort_unstable_by_key", "sort", "sort_unstable",
+              "sort_by_cached_key"}]
+    ctx.floor("SORTCMP", "sort calls in compute_probs", len(sorts), 2)
+    k = 0
+    for b, t in sorts:
+        nm = sorted({strip_generics(x).rsplit("::", 1)[-1] for x in callee_paths(t)})[0]
+        cl = E.closure_of_operand(fa, t["args"][1]) if len(t["args"]) > 1 else None
+        if nm not in ("sort_by", "sort_unstable_by") or cl is None:
+            ctx.ob("SORTCMP", "%s|sort|%d" % (p, k), False, fa.loc(b),
+                   "%s without an explicit two-key comparator: the (frequency desc, id asc) order "
+                   "is not established" % nm)
+            k += 1
+            continue
+        cp = cl[0]
+        cfa = E.fa(cp)
+        S = Sym(E, cfa)
+
+        def side(op, fa_=cfa, S_=S):
+            """('a'|'b', field) when the operand is field #n of the first / second element"""
+            e = S_.operand(op)
+            txt = show(e)
+            for who, arg in (("a", "arg2"), ("b", "arg3")):
+                if txt.startswith(arg + "."):
+                    return who, txt[len(arg) + 1:]
+            return None, txt
+        prim = None
+        tie = None
+        for cb, ct in cfa.calls():
+            cn = {strip_generics(x).rsplit("::", 1)[-1] for x in callee_paths(ct)}
+            if cn & {"partial_cmp", "total_cmp", "cmp"} and prim is None and len(ct["args"]) == 2:
+                prim = (side(ct["args"][0]), side(ct["args"][1]), cfa.loc(cb))
+            if cn & {"then_with", "then"} and len(ct["args"]) == 2:
+                inner = E.closure_of_operand(cfa, ct["args"][1])
+                if inner is not None:
+                    # captures of the tie-break closure, in order
+                    caps = []
+                    for b2, i2, s2 in cfa.stmts():
+                        rv = s2.get("rv")
+                        if rv and rv["k"] == "agg" and rv.get("agg") == "closure" and rv.get("closure") == inner[0]:
+                            caps = [side(o) for o in rv["ops"]]
+                    ifa = E.fa(inner[0])
+                    for ib, it in ifa.calls():
+                        if {strip_generics(x).rsplit("::", 1)[-1] for x in callee_paths(it)} & {"cmp", "partial_cmp"}:
+                            Si = Sym(E, ifa)
+                            x, y = show(Si.operand(it["args"][0])), show(Si.operand(it["args"][1]))
+                            # arg1.#0 / arg1.#1 are the captures
+                            def cap_of(txt):
+                                for n_ in range(len(caps)):
+                                    if txt.startswith("arg1.#%d" % n_):
+                                        return caps[n_]
+                                return (None, txt)
+                            tie = (cap_of(x), cap_of(y), ifa.loc(ib))
+                else:
+                    o = cfa.origin(ct["args"][1])
+                    if o[0] == "call" and len(o[2]["args"]) == 2:
+                        tie = (side(o[2]["args"][0]), side(o[2]["args"][1]), cfa.loc(cb))
+        okp = prim is not None and prim[0][0] == "b" and prim[1][0] == "a" and prim[0][1] == prim[1][1]
+        ctx.ob("SORTCMP", "%s|sort|%d|frequency-descending" % (p, k), okp, fa.loc(b),
+               "primary key: second.%s compared with first.%s (non-increasing frequency)"
+               % (prim[0][1], prim[1][1]) if okp else
+               "the primary comparison of the sort is %s: the list is not in non-increasing "
+               "frequency order" % (prim[:2],))
+        okt = tie is not None and tie[0][0] == "a" and tie[1][0] == "b" and tie[0][1] == tie[1][1] \
+            and prim is not None and tie[0][1] != prim[0][1]
+        ctx.ob("SORTCMP", "%s|sort|%d|ties-by-ascending-id" % (p, k), okt, fa.loc(b),
+               "tie-break: first.%s compared with second.%s (ascending id)" % (tie[0][1], tie[1][1])
+               if okt else
+               "equal frequencies are not broken by ascending id (%s): the order of tied ids "
+               "depends on the unstable sort" % (tie[:2] if tie else "no tie-break",))
+        k += 1
